@@ -57,7 +57,9 @@ def hist_mask(rng):
     mk_kind = rng.choice(['int', 'int', 'wide'])
     if mk_kind == 'int':
         dt = rng.choice(gen.INT_DTYPES)
-        mk = gen.MapCfg('k', 'plain', c.covord, c.spord, dtype=dt, sentinel='0')
+        # (a signed mask map with its default sentinel: pixels it does not set are NOT masked)
+        mk = gen.MapCfg('k', 'plain', c.covord, c.spord, dtype=dt,
+                        sentinel=rng.choice(['0', '0', 'default']) if dt.startswith('i') else '0')
     else:
         mk = gen.MapCfg('k', 'wide', c.covord, c.spord, maxbits=rng.choice([8, 9, 16, 20]))
     h = [c.line(), mk.line()]
